@@ -48,7 +48,7 @@ Definition closes (md : exec_mode) (D : tenv) (c : config) (ch : choice) : list 
     | Some ps, Some pr => match action_of md D ps with ASend _ m => closes_of pr m | _ => [] end
     | _, _ => []
     end
-  | Control f t => match procs c !! t with Some pt => cids_of (pr_provs pt) | None => [] end
+  | Control f t => match procs c !! t with Some pt => cids_of (firstn 1 (pr_provs pt)) | None => [] end
   end.
 
 (* footprint of a choice: the existing channels its step reads or writes (the fresh channels it
